@@ -146,6 +146,132 @@ def enc_bonds(out_ops_list):
     return "#".join(bonds)
 
 
+def regrouping_and_copy_histories(run, rng, quick):
+    """multi-step histories in one process (caches keyed too coarsely only show here):
+    (a) the SAME Op objects are handed to Mpo(...) for two models that group the electronic DoFs into sites differently
+        (one BasisMultiElectronVac site vs one BasisSimpleElectron per DoF), in both orders;
+    (b) an operator is copied, the copy is site-swapped, then the original is swapped: both must equal the dense reference
+        in their own current site order."""
+    from renormalizer.model import Model, Op
+    from renormalizer.model import basis as ba
+    from renormalizer.mps import Mpo
+    done = 0
+    ad, a_ = np.array([[0, 0], [1.0, 0]]), np.array([[0, 1.0], [0, 0]])
+
+    def kron_all(mats):
+        out = np.eye(1)
+        for m in mats:
+            out = np.kron(out, m)
+        return out
+    for _ in range(6 if quick else 60):
+        k = int(rng.integers(2, 5))
+        edofs = [f"e{i}" for i in range(k)]
+        pairs = [(int(rng.integers(k)), int(rng.integers(k))) for _ in range(int(rng.integers(2, 7)))]
+        facs = [float(np.round(rng.uniform(-1, 1), 3)) or 0.5 for _ in pairs]
+        spin_first = bool(rng.random() < 0.5)
+        zf = float(np.round(rng.uniform(-1, 1), 3)) or 0.25
+
+        def make_ops():
+            return [Op(r"a^\dagger a", [edofs[i], edofs[j]], f) for (i, j), f in zip(pairs, facs)] + [Op("sigma_z", "s", zf)]
+        # dense references
+        # layout A: [spin?] + one site of dimension k+1 (vacuum, e0, ...)
+        refA = np.zeros((2 * (k + 1), 2 * (k + 1)))
+        for (i, j), f in zip(pairs, facs):
+            m = np.zeros((k + 1, k + 1))
+            m[i + 1, j + 1] = 1.0
+            refA += f * (np.kron(np.eye(2), m) if spin_first else np.kron(m, np.eye(2)))
+        sz = np.diag([1.0, -1.0])
+        refA += zf * (np.kron(sz, np.eye(k + 1)) if spin_first else np.kron(np.eye(k + 1), sz))
+        # layout B: [spin?] + k two-level sites
+        refB = np.zeros((2 ** (k + 1), 2 ** (k + 1)))
+        for (i, j), f in zip(pairs, facs):
+            mats = [np.eye(2) for _ in range(k)]
+            if i == j:
+                mats[i] = ad @ a_
+            else:
+                mats[i], mats[j] = ad, a_
+            refB += f * kron_all(([np.eye(2)] if spin_first else []) + mats + ([] if spin_first else [np.eye(2)]))
+        refB += zf * kron_all(([sz] if spin_first else []) + [np.eye(2)] * k + ([] if spin_first else [sz]))
+
+        def modelA():
+            e = [ba.BasisMultiElectronVac(edofs)]
+            sp = [ba.BasisHalfSpin("s")]
+            return Model(sp + e if spin_first else e + sp, [])
+
+        def modelB():
+            e = [ba.BasisSimpleElectron(d) for d in edofs]
+            sp = [ba.BasisHalfSpin("s")]
+            return Model(sp + e if spin_first else e + sp, [])
+        for order in ("A-then-B", "B-then-A"):
+            for algo in ("Hopcroft-Karp", "qr"):
+                ops = make_ops()          # one set of Op objects for both constructions
+                seq = [("A", modelA, refA), ("B", modelB, refB)]
+                if order == "B-then-A":
+                    seq.reverse()
+                for pos, (lab, mk, ref) in enumerate(seq):
+                    case = dict(edofs=edofs, pairs=pairs, factors=facs, sigma_z_factor=zf, spin_first=spin_first, order=order, algo=algo,
+                                layout=lab, position_in_sequence=pos)
+                    try:
+                        d = np.asarray(Mpo(mk(), ops, algo=algo).todense())
+                    except Exception as e:  # noqa
+                        run.violation(f"regroup:{order}:layout-{lab}:raises:{type(e).__name__}", dict(case, error=repr(e)[:300]))
+                        continue
+                    done += 1
+                    if d.shape != ref.shape or np.max(np.abs(d - ref)) > 1e-10:
+                        run.violation(f"regroup:same-Op-objects:{'second' if pos else 'first'}-construction:dense-mismatch",
+                                      dict(case, max_abs_error=float(np.max(np.abs(d - ref))) if d.shape == ref.shape else -1.0,
+                                           what="the same Op objects were used to build operators for two models with a different DoF-to-site grouping"))
+        run.count(f"regroup:k={k}")
+        # ---- (b) copy, swap the copy, swap the original
+        n = int(rng.integers(3, 6))
+        sb = [ba.BasisHalfSpin(i) for i in range(n)]
+        sterms = [Op("sigma_x sigma_z", [i, j], float(np.round(rng.uniform(-1, 1), 3)) or 0.5) for i in range(n) for j in range(n) if i != j and rng.random() < 0.5]
+        sterms += [Op("sigma_+ sigma_- sigma_z", [int(a), int(b), int(c)], 0.7) for a, b, c in [rng.permutation(n)[:3]]]
+        smats = {"sigma_x": np.array([[0, 1.0], [1, 0]]), "sigma_z": sz, "sigma_+": np.array([[0, 1.0], [0, 0]]), "sigma_-": np.array([[0, 0], [1.0, 0]])}
+
+        def dense_in_order(order):
+            h = np.zeros((2 ** n, 2 ** n))
+            for t in sterms:
+                mats = [np.eye(2)] * n
+                mats = list(mats)
+                for sym, dof in zip(t.split_symbol, t.dofs):
+                    mats[order.index(dof)] = mats[order.index(dof)] @ smats[sym]
+                h += float(np.real(t.factor)) * kron_all(mats)
+            return h
+        for algo in ("Hopcroft-Karp", "Hungarian"):
+            try:
+                orig = Mpo(Model(sb, sterms), algo=algo)
+                ordo = list(range(n))
+                cp = orig.copy() if rng.random() < 0.5 else orig.conj_trans().conj_trans()
+                ordc = list(ordo)
+                hist = []
+                for who in ("copy", "orig", "copy", "orig"):
+                    obj, od = (cp, ordc) if who == "copy" else (orig, ordo)
+                    i = int(rng.integers(n - 1))
+                    od[i], od[i + 1] = od[i + 1], od[i]
+                    nb = list(obj.model.basis)
+                    nb[i], nb[i + 1] = nb[i + 1], nb[i]
+                    obj.try_swap_site(Model(nb, obj.model.ham_terms), False, algo=algo)
+                    hist.append((who, i))
+                    for name, o2, od2 in (("copy", cp, ordc), ("orig", orig, ordo)):
+                        d = np.asarray(o2.todense())
+                        ref = dense_in_order(od2)
+                        done += 1
+                        if np.max(np.abs(d - ref)) > 1e-10:
+                            run.violation(f"copy-then-swap:{name}:dense-mismatch",
+                                          dict(nsite=n, algo=algo, history=hist, object=name, site_order=od2,
+                                               terms=[(t.symbol, list(t.dofs), float(np.real(t.factor))) for t in sterms],
+                                               max_abs_error=float(np.max(np.abs(d - ref))),
+                                               what="after swapping a copy, the original (or the copy) no longer equals the dense operator in its own site order"))
+                            raise StopIteration
+            except StopIteration:
+                pass
+            except Exception as e:  # noqa
+                run.count("copy-then-swap-raised:" + type(e).__name__)
+    run.cov["history_cases"] = done
+    return done
+
+
 def main():
     run = Run("C01", level="proof")
     quick = run.tier != "thorough"
@@ -305,6 +431,7 @@ def main():
     except ImportError:
         search_c01 = None
         run.cov["search_module"] = "absent"
+    regrouping_and_copy_histories(run, rng, quick)
     if search_c01 is not None:
         ev0, dn0 = run.cov["evaluations"], run.cov["distinct_nontrivial"]
         search_c01.search(run, rng, quick)
